@@ -10,8 +10,12 @@ Quantifier: all supported types x all sources x all prior destination states tha
 share no memory with the source.
 
 Model: `DeepCopy.top` (= body of `deriveDeepCopy(dst, src T)`), `DeepCopy.field` (= `genField`),
-`DeepCopy.clone` (S/DeepCopy.lean); the state is the next fresh address. Specification:
-`Spec.structEq` (Spec/StructEq.lean). Supportedness: `SupportedCopy`, `SupportedClone`, precondition
+`DeepCopy.clone` (S/DeepCopy.lean); the state is the next fresh address. Specifications:
+`Spec.structEq` (Spec/StructEq.lean: equality in Go's sense, IEEE `==` at float leaves and map keys,
+so it can hold only for NaN-free sources: sections 2 and 5) and `Spec.shapeEq` (Spec/ShapeEq.lean: the
+same nil-ness, lengths and BITS everywhere, map entries paired one-to-one by the bits of the key and the
+shape of the value; no hypothesis on NaN: sections 6 and 7; on NaN-free values it implies `structEq`,
+`shape_implies_equal`). Supportedness: `SupportedCopy`, `SupportedClone`, precondition
 on the top-level form: `DeepCopy.topPre` (Lemmas/DeepCopy/Supported.lean). `memAddrs v` = all pointer
 targets, backing arrays and maps reachable in `v`; `writeAt a f v` = the view `v` after a write to
 the object at address `a` (Lemmas/DeepCopy/Clone.lean). Values are finite trees, hence acyclic.
@@ -153,20 +157,25 @@ example : DeepCopy.top Ex3.env Ex3.tS .nilv (.slice 1 0 .snil) 10 = .ok (.slice 
   Ex3.slice_nil_into_empty.1
 
 /-- **The emitted code does not panic** (no nil dereference, index out of range, assignment to a nil
-map) under the same hypotheses, and the destination is again a value of the type. -/
+map) under the same hypotheses except NaN-freeness, which the run does not depend on, and the
+destination is again a value of the type. -/
 theorem deepcopy_ok (env : Env) (T : Ty) (src dst : Val) (n : Nat)
     (hf : env.flagsOk = true) (hsup : SupportedCopy env T = true)
-    (hs : hasType env T src = true) (hd : hasType env T dst = true) (hnan : nanFree src = true)
+    (hs : hasType env T src = true) (hd : hasType env T dst = true)
     (hpre : topPre env T src dst = true) :
     ∃ d' n', DeepCopy.top env T src dst n = .ok (d', n') ∧ hasType env T d' = true := by
   simp only [SupportedCopy, Bool.and_eq_true] at hsup
-  obtain ⟨d2, n2, h2, t, -⟩ := (corrOK hf hsup.2 src).top T dst n hsup.1 hs hd hnan hpre
+  obtain ⟨d2, n2, h2, t, -⟩ := (shapeOK hf hsup.2 src).top T dst n hsup.1 hs hd hpre
   exact ⟨d2, n2, h2, t⟩
 
 example : ∃ d' n', DeepCopy.top Ex.env tNode Ex.src Ex.dst 30 = .ok (d', n') ∧
     hasType Ex.env tNode d' = true :=
-  deepcopy_ok Ex.env tNode Ex.src Ex.dst 30 env_flagsOk supportedCopy src_typed dst_typed
-    src_nanFree pre
+  deepcopy_ok Ex.env tNode Ex.src Ex.dst 30 env_flagsOk supportedCopy src_typed dst_typed pre
+/-- a source with NaN leaves and NaN map keys is no obstacle -/
+example : ∃ d' n', DeepCopy.top Ex4.env Ex4.tW Ex4.src Ex4.dst 10 = .ok (d', n') ∧
+    hasType Ex4.env Ex4.tW d' = true :=
+  deepcopy_ok Ex4.env Ex4.tW Ex4.src Ex4.dst 10 Ex4.env_flagsOk Ex4.supportedCopy Ex4.src_typed
+    Ex4.dst_typed Ex4.pre
 
 /-- **`deriveClone` returns a structurally equal value** (nil stays nil at every level). -/
 theorem clone_equal (env : Env) (T : Ty) (src d' : Val) (n n' : Nat)
@@ -184,15 +193,18 @@ example : Spec.structEq Ex.env tNode Ex.src cres = true :=
 /-- **`deriveClone` does not panic** and returns a value of the type. -/
 theorem clone_ok (env : Env) (T : Ty) (src : Val) (n : Nat)
     (hf : env.flagsOk = true) (hsup : SupportedClone env T = true)
-    (hs : hasType env T src = true) (hnan : nanFree src = true) :
+    (hs : hasType env T src = true) :
     ∃ d' n', DeepCopy.clone env T src n = .ok (d', n') ∧ hasType env T d' = true := by
   simp only [SupportedClone, Bool.and_eq_true] at hsup
-  obtain ⟨d2, n2, h2, t, -⟩ := clone_good hf hsup.2 n hsup.1 hs hnan
+  obtain ⟨d2, n2, h2, t, -⟩ := clone_goodS hf hsup.2 n hsup.1 hs
   exact ⟨d2, n2, h2, t⟩
 
 example : ∃ d' n', DeepCopy.clone Ex.env tNode Ex.src 30 = .ok (d', n') ∧
     hasType Ex.env tNode d' = true :=
-  clone_ok Ex.env tNode Ex.src 30 env_flagsOk supportedClone src_typed src_nanFree
+  clone_ok Ex.env tNode Ex.src 30 env_flagsOk supportedClone src_typed
+example : ∃ d' n', DeepCopy.clone Ex4.env Ex4.tW Ex4.src 10 = .ok (d', n') ∧
+    hasType Ex4.env Ex4.tW d' = true :=
+  clone_ok Ex4.env Ex4.tW Ex4.src 10 Ex4.env_flagsOk Ex4.supportedClone Ex4.src_typed
 
 /-! ### 3. Tree shape -/
 
@@ -288,7 +300,7 @@ theorem deepcopy_correct (env : Env) (T : Ty) (src dst : Val) (n : Nat)
       (memAddrs d').Nodup ∧
       (∀ f, (∀ a ∈ memAddrs d', writeAt a f src = src) ∧
         (∀ a ∈ memAddrs src, writeAt a f d' = d')) := by
-  obtain ⟨d', n', h, t⟩ := deepcopy_ok env T src dst n hf hsup hs hd hnan hpre
+  obtain ⟨d', n', h, t⟩ := deepcopy_ok env T src dst n hf hsup hs hd hpre
   have hfr := deepcopy_fresh env T src dst d' n n' hf hs h
   exact ⟨d', n', h, hfr.1, t,
     deepcopy_equal env T src dst d' n n' hf hsup hs hd hnan hpre h, hfr.2,
@@ -318,7 +330,7 @@ theorem clone_correct (env : Env) (T : Ty) (src : Val) (n : Nat)
       (memAddrs d').Nodup ∧
       (∀ f, (∀ a ∈ memAddrs d', writeAt a f src = src) ∧
         (∀ a ∈ memAddrs src, writeAt a f d' = d')) := by
-  obtain ⟨d', n', h, t⟩ := clone_ok env T src n hf hsup hs hnan
+  obtain ⟨d', n', h, t⟩ := clone_ok env T src n hf hsup hs
   have hfr := clone_fresh env T src d' n n' hf hs h
   exact ⟨d', n', h, hfr.1, t, clone_equal env T src d' n n' hf hsup hs hnan h, hfr.2,
     clone_disjoint env T src d' n n' hf hs h hsb,
@@ -343,5 +355,147 @@ example : ∃ d' n', DeepCopy.clone Ex2.env Ex2.tL Ex2.src 10 = .ok (d', n') ∧
     Ex2.src_nanFree Ex2.src_below
 example : DeepCopy.clone Ex2.env Ex2.tL Ex2.src 10 = .ok (Ex2.cres, 17) := Ex2.crun
 example : memAddrs Ex2.cres = [10, 11, 12, 13, 16] := by decide
+
+/-! ### 6. The copy has the shape and the bits of the source — no hypothesis on NaN
+
+`Spec.shapeEq` (Spec/ShapeEq.lean): leaves bit for bit (a NaN equals a NaN of the same bit pattern,
+`+0` differs from `-0`), the same nil-ness at every pointer, slice and map, the same lengths, and for
+maps a one-to-one pairing of all entries of the one with all entries of the other in which paired
+entries have keys of the same bits and values of the same shape (keys are never looked up with `==`,
+so entries under NaN keys — several of them may carry the same bit pattern — are paired like any
+other). The source is any value of the type: `hasType` demands that the keys of every map are pairwise
+not `==`, which any number of NaN keys satisfy. -/
+
+/-- **C05 without NaN-freeness, `deriveDeepCopy`.** For every supported type, every well-typed source
+(NaN leaves and NaN map keys allowed) and every well-typed prior destination admitted by `topPre`,
+the destination after the call has the shape and the bits of the source. -/
+theorem deepcopy_same_shape (env : Env) (T : Ty) (src dst d' : Val) (n n' : Nat)
+    (hf : env.flagsOk = true) (hsup : SupportedCopy env T = true)
+    (hs : hasType env T src = true) (hd : hasType env T dst = true)
+    (hpre : topPre env T src dst = true)
+    (h : DeepCopy.top env T src dst n = .ok (d', n')) :
+    Spec.shapeEq env T src d' = true := by
+  simp only [SupportedCopy, Bool.and_eq_true] at hsup
+  obtain ⟨d2, n2, h2, -, e⟩ := (shapeOK hf hsup.2 src).top T dst n hsup.1 hs hd hpre
+  rw [h] at h2; cases h2; exact e
+
+/-- a NaN leaf and two map entries under one and the same NaN bit pattern (and a third, ordinary one):
+the prior destination's own NaN entry is gone, both NaN entries of the source are there -/
+example : Spec.shapeEq Ex4.env Ex4.tW Ex4.src Ex4.res = true :=
+  deepcopy_same_shape Ex4.env Ex4.tW Ex4.src Ex4.dst Ex4.res 10 13 Ex4.env_flagsOk Ex4.supportedCopy
+    Ex4.src_typed Ex4.dst_typed Ex4.pre Ex4.run
+example : nanFree Ex4.src = false := Ex4.src_not_nanFree
+/-- Go's equality rejects this perfect copy, and the source against itself -/
+example : Spec.structEq Ex4.env Ex4.tW Ex4.src Ex4.res = false := Ex4.res_not_structEq
+example : Spec.structEq Ex4.env Ex4.tW Ex4.src Ex4.src = false := Ex4.src_not_structEq
+/-- the specification is not trivially true: a copy that lost one of the two NaN entries (F68), and one
+whose two NaN entries both hold the first value, are rejected -/
+example : Spec.shapeEq Ex4.env Ex4.tW Ex4.src Ex4.lost = false := Ex4.lost_not_shapeEq
+example : Spec.shapeEq Ex4.env Ex4.tW Ex4.src Ex4.twice = false := Ex4.twice_not_shapeEq
+/-- on the NaN-free example the new theorem applies as well -/
+example : Spec.shapeEq Ex.env tNode Ex.src res = true :=
+  deepcopy_same_shape Ex.env tNode Ex.src Ex.dst res 30 34 env_flagsOk supportedCopy src_typed
+    dst_typed pre run
+
+/-- **C05 without NaN-freeness, `deriveClone`.** -/
+theorem clone_same_shape (env : Env) (T : Ty) (src d' : Val) (n n' : Nat)
+    (hf : env.flagsOk = true) (hsup : SupportedClone env T = true)
+    (hs : hasType env T src = true)
+    (h : DeepCopy.clone env T src n = .ok (d', n')) :
+    Spec.shapeEq env T src d' = true := by
+  simp only [SupportedClone, Bool.and_eq_true] at hsup
+  obtain ⟨d2, n2, h2, -, e⟩ := clone_goodS hf hsup.2 n hsup.1 hs
+  rw [h] at h2; cases h2; exact e
+
+example : Spec.shapeEq Ex4.env Ex4.tW Ex4.src Ex4.cres = true :=
+  clone_same_shape Ex4.env Ex4.tW Ex4.src Ex4.cres 10 14 Ex4.env_flagsOk Ex4.supportedClone
+    Ex4.src_typed Ex4.crun
+example : Spec.shapeEq Ex.env tNode Ex.src cres = true :=
+  clone_same_shape Ex.env tNode Ex.src cres 30 36 env_flagsOk supportedClone src_typed crun
+
+/-- **The bit-level equality is the stronger one on NaN-free values**: whatever has the shape and the
+bits of a NaN-free `x` is structurally equal to `x` in Go's sense (no typing hypothesis). Hence
+`deepcopy_equal` / `clone_equal` are corollaries of `deepcopy_same_shape` / `clone_same_shape`; the
+converse fails for `+0` / `-0` only. -/
+theorem shape_implies_equal (env : Env) (T : Ty) (x y : Val) (hnan : nanFree x = true)
+    (h : Spec.shapeEq env T x y = true) : Spec.structEq env T x y = true :=
+  shapeEq_structEq env T x y hnan h
+
+example : Spec.structEq Ex.env tNode Ex.src res = true :=
+  shape_implies_equal Ex.env tNode Ex.src res src_nanFree
+    (deepcopy_same_shape Ex.env tNode Ex.src Ex.dst res 30 34 env_flagsOk supportedCopy src_typed
+      dst_typed pre run)
+/-- `+0` and `-0` (bits `2^63`): equal for Go, of different bits -/
+example : Spec.structEq Ex3.env (.basic (.float 64)) (.flt 64 0) (.flt 64 9223372036854775808) = true ∧
+    Spec.shapeEq Ex3.env (.basic (.float 64)) (.flt 64 0) (.flt 64 9223372036854775808) = false := by
+  constructor <;> dc_eval [Ex3.env, fltIsNaN, fltKey, fltSign, fltMag, fltExp, fltMant, mantBits, expBits]
+
+/-! ### 7. The property in one statement, without NaN-freeness -/
+
+/-- **C05 for `deriveDeepCopy`, every source.** As `deepcopy_correct` with the hypothesis
+`nanFree src` dropped and (a) read as "has the shape and the bits of the source". -/
+theorem deepcopy_correct_shape (env : Env) (T : Ty) (src dst : Val) (n : Nat)
+    (hf : env.flagsOk = true) (hsup : SupportedCopy env T = true)
+    (hs : hasType env T src = true) (hd : hasType env T dst = true)
+    (hpre : topPre env T src dst = true)
+    (htree : (memAddrs dst).Nodup)
+    (hdisj : ∀ a ∈ memAddrs src, a ∉ memAddrs dst)
+    (hsb : ∀ a ∈ memAddrs src, a < n) (hdb : ∀ a ∈ memAddrs dst, a < n) :
+    ∃ d' n', DeepCopy.top env T src dst n = .ok (d', n') ∧ n ≤ n' ∧
+      hasType env T d' = true ∧
+      Spec.shapeEq env T src d' = true ∧
+      (∀ a ∈ memAddrs d', a ∈ memAddrs dst ∨ (n ≤ a ∧ a < n')) ∧
+      (∀ a ∈ memAddrs d', a ∉ memAddrs src) ∧
+      (memAddrs d').Nodup ∧
+      (∀ f, (∀ a ∈ memAddrs d', writeAt a f src = src) ∧
+        (∀ a ∈ memAddrs src, writeAt a f d' = d')) := by
+  obtain ⟨d', n', h, t⟩ := deepcopy_ok env T src dst n hf hsup hs hd hpre
+  have hfr := deepcopy_fresh env T src dst d' n n' hf hs h
+  exact ⟨d', n', h, hfr.1, t,
+    deepcopy_same_shape env T src dst d' n n' hf hsup hs hd hpre h, hfr.2,
+    deepcopy_disjoint env T src dst d' n n' hf hs h hsb hdisj,
+    deepcopy_tree env T src dst d' n n' hf hs h htree hdb,
+    deepcopy_write_isolation env T src dst d' n n' hf hs h hsb hdisj⟩
+
+example : ∃ d' n', DeepCopy.top Ex4.env Ex4.tW Ex4.src Ex4.dst 10 = .ok (d', n') ∧ 10 ≤ n' ∧
+    hasType Ex4.env Ex4.tW d' = true ∧ Spec.shapeEq Ex4.env Ex4.tW Ex4.src d' = true ∧
+    (∀ a ∈ memAddrs d', a ∈ memAddrs Ex4.dst ∨ (10 ≤ a ∧ a < n')) ∧
+    (∀ a ∈ memAddrs d', a ∉ memAddrs Ex4.src) ∧ (memAddrs d').Nodup ∧
+    (∀ f, (∀ a ∈ memAddrs d', writeAt a f Ex4.src = Ex4.src) ∧
+      (∀ a ∈ memAddrs Ex4.src, writeAt a f d' = d')) :=
+  deepcopy_correct_shape Ex4.env Ex4.tW Ex4.src Ex4.dst 10 Ex4.env_flagsOk Ex4.supportedCopy
+    Ex4.src_typed Ex4.dst_typed Ex4.pre Ex4.dst_tree Ex4.src_dst_disjoint Ex4.src_below Ex4.dst_below
+example : DeepCopy.top Ex4.env Ex4.tW Ex4.src Ex4.dst 10 = .ok (Ex4.res, 13) := Ex4.run
+example : memAddrs Ex4.res = [5, 10, 11, 12] := by decide
+
+/-- **C05 for `deriveClone`, every source.** -/
+theorem clone_correct_shape (env : Env) (T : Ty) (src : Val) (n : Nat)
+    (hf : env.flagsOk = true) (hsup : SupportedClone env T = true)
+    (hs : hasType env T src = true)
+    (hsb : ∀ a ∈ memAddrs src, a < n) :
+    ∃ d' n', DeepCopy.clone env T src n = .ok (d', n') ∧ n ≤ n' ∧
+      hasType env T d' = true ∧
+      Spec.shapeEq env T src d' = true ∧
+      (∀ a ∈ memAddrs d', n ≤ a ∧ a < n') ∧
+      (∀ a ∈ memAddrs d', a ∉ memAddrs src) ∧
+      (memAddrs d').Nodup ∧
+      (∀ f, (∀ a ∈ memAddrs d', writeAt a f src = src) ∧
+        (∀ a ∈ memAddrs src, writeAt a f d' = d')) := by
+  obtain ⟨d', n', h, t⟩ := clone_ok env T src n hf hsup hs
+  have hfr := clone_fresh env T src d' n n' hf hs h
+  exact ⟨d', n', h, hfr.1, t, clone_same_shape env T src d' n n' hf hsup hs h, hfr.2,
+    clone_disjoint env T src d' n n' hf hs h hsb,
+    clone_tree env T src d' n n' hf hs h,
+    clone_write_isolation env T src d' n n' hf hs h hsb⟩
+
+example : ∃ d' n', DeepCopy.clone Ex4.env Ex4.tW Ex4.src 10 = .ok (d', n') ∧ 10 ≤ n' ∧
+    hasType Ex4.env Ex4.tW d' = true ∧ Spec.shapeEq Ex4.env Ex4.tW Ex4.src d' = true ∧
+    (∀ a ∈ memAddrs d', 10 ≤ a ∧ a < n') ∧
+    (∀ a ∈ memAddrs d', a ∉ memAddrs Ex4.src) ∧ (memAddrs d').Nodup ∧
+    (∀ f, (∀ a ∈ memAddrs d', writeAt a f Ex4.src = Ex4.src) ∧
+      (∀ a ∈ memAddrs Ex4.src, writeAt a f d' = d')) :=
+  clone_correct_shape Ex4.env Ex4.tW Ex4.src 10 Ex4.env_flagsOk Ex4.supportedClone Ex4.src_typed
+    Ex4.src_below
+example : DeepCopy.clone Ex4.env Ex4.tW Ex4.src 10 = .ok (Ex4.cres, 14) := Ex4.crun
 
 end Goderive.C05
